@@ -75,16 +75,27 @@ def run(ctx):
     n_random = 400 if tier == "quick" else 8000
     max_exh = 3 if tier == "quick" else 4
 
+    calls = [0]
+
     def one(dc, label):
         case = {"kind": "descriptor", "label": label, "mother": dc.mother,
                 "decays": [[k, v.daughters.to_list()] for k, v in dc.decays.items()]}
+        want_tree = tree_of(dc)     # the tree the chain was made from, taken before any call on it
+        calls[0] += 1
+        if calls[0] % 3 == 0:
+            # read-only calls made before rendering (visible_bf, flatten) leave the chain, hence its descriptor, as it was
+            case["before"] = ["visible_bf", "flatten"]
+            try:
+                _ = dc.visible_bf
+                dc.flatten()
+            except Exception:
+                pass
         try:
             s = dc.to_string()
         except Exception as e:
             res.violation(f"to_string raised {type(e).__name__}: {e}", case, clause="descriptor")
             res.case()
             return
-        want_tree = tree_of(dc)
         try:
             got_tree = read_descriptor(s)
         except Exception as e:
